@@ -183,10 +183,7 @@ impl From<u8> for Fr {
     #[verifier::external_body]
     fn from(v: u8) -> (r: Fr) ensures r.view() == v as nat { unimplemented!() }
 }
-impl From<u64> for Fr {
-    #[verifier::external_body]
-    fn from(v: u64) -> (r: Fr) ensures r.view() == v as nat { unimplemented!() }
-}
+// (From<u64> for Fr: prelude_field.rs)
 
 // ---- Poseidon ----------------------------------------------------------------------------------
 // The permutation-based hash as an UNINTERPRETED function of the input sequence: everything proved
